@@ -135,7 +135,7 @@ type c28Rec struct {
 	current map[string]*c28Out // task id -> output being collected
 	reports map[int64]int      // value -> number of eviction reports
 	bg      int
-	advTick int64 // logical time at which the latest time advance began (0 = none yet)
+	marks   []c28Mark // (logical time, fake time) at which each time advance began
 	start   time.Time
 	bad     []string
 	limit   int
@@ -248,21 +248,30 @@ func (r *c28Rec) onEvict(id int, key any, value any) {
 	ci := c28ClassIndex(id)
 	// The sweeper removed the entry under the cache lock some time BEFORE this callback (it reports after
 	// releasing the lock, and other tasks can run in between), but not before it woke, i.e. not before the
-	// latest time advance began: the operation spans [advance began, callback].
+	// time advance that brought the clock to this instant began: the operation spans [that advance began, callback].
 	tk := sim.Tick()
-	if r.advTick > 0 {
-		tk = r.advTick
-	}
 	now := time.Since(r.start)
+	// (the advance that moved the fake clock to this instant is the latest one that BEGAN before it; a later
+	// advance may already have been marked when the callback finally runs)
+	for _, m := range r.marks {
+		if m.at < now {
+			tk = m.tick
+		}
+	}
 	r.ops = append(r.ops, porcupine.Operation{ClientId: 60, Call: tk, Return: sim.Tick(),
 		Input:  c28In{Kind: "bgevict", Class: ci, Key: k, Val: v, T: now},
 		Output: c28Out{T2: now}})
 }
 
+type c28Mark struct {
+	tick int64
+	at   time.Duration
+}
+
 func (r *c28Rec) markAdvance() {
 	tk := sim.Tick()
 	r.mu.Lock()
-	r.advTick = tk
+	r.marks = append(r.marks, c28Mark{tk, time.Since(r.start)})
 	r.mu.Unlock()
 }
 
